@@ -179,8 +179,108 @@ fn fmt_idxs(v: &[usize]) -> String {
     }
 }
 
-fn leaves_of<H: HX>(n: usize, seed: u64) -> Vec<H::Digest> {
-    (0..n).map(|i| H::leaf(seed, i as u64)).collect()
+/// seed token of an op line: `<seed>` (distinct leaves) or `<seed>:<pattern>`
+#[derive(Clone, PartialEq, Eq, Hash, Debug)]
+pub struct Sd {
+    seed: u64,
+    pat: String,
+}
+
+impl Sd {
+    fn plain(seed: u64) -> Sd {
+        Sd { seed, pat: String::new() }
+    }
+    fn parse(s: &str) -> Option<Sd> {
+        let mut it = s.splitn(2, ':');
+        let seed = it.next()?.parse::<u64>().ok()?;
+        let pat = it.next().unwrap_or("").to_string();
+        Some(Sd { seed, pat })
+    }
+    fn patterned(&self) -> bool {
+        !self.pat.is_empty() && self.pat != "d"
+    }
+}
+
+/// leaf pattern: the label of position `i` (equal labels = equal leaf digests); None = bad pattern
+fn label(pat: &str, i: usize, n: usize) -> Option<u64> {
+    let t: Vec<&str> = pat.split('.').collect();
+    let p = |s: &str| s.parse::<usize>().ok();
+    Some(match t.as_slice() {
+        [""] | ["d"] | ["node"] => i as u64,
+        ["eq"] => 0,
+        ["alt"] => (i % 2) as u64,
+        ["alt2"] => ((i / 2) % 2) as u64,
+        ["half"] => (i % (n / 2).max(1)) as u64,
+        ["one", k] => {
+            let k = p(k)?;
+            if k >= n {
+                return None;
+            }
+            (i == k) as u64
+        },
+        ["run", s0, l] => {
+            let (s0, l) = (p(s0)?, p(l)?);
+            if l < 2 || s0 + l > n {
+                return None;
+            }
+            if i >= s0 && i < s0 + l {
+                s0 as u64
+            } else {
+                i as u64
+            }
+        },
+        _ => return None,
+    })
+}
+
+/// the leaves of an op line; pattern `node` makes some leaves equal to internal node digests
+fn leaves_of<H: HX>(n: usize, sd: &Sd) -> Option<Vec<H::Digest>> {
+    let mut v: Vec<H::Digest> = Vec::with_capacity(n);
+    for i in 0..n {
+        v.push(H::leaf(sd.seed, label(&sd.pat, i, n)?));
+    }
+    if sd.pat == "node" {
+        if n >= 4 {
+            v[2] = H::merge(&[v[0], v[1]]);
+            v[3] = v[2];
+        }
+        if n >= 8 {
+            v[5] = H::merge(&[v[2], v[3]]);
+        }
+        if n == 2 {
+            v[1] = H::merge(&[v[0], v[0]]);
+        }
+    }
+    Some(v)
+}
+
+/// the leaf patterns generated for trees of `n` leaves (all runs for small trees, a selection otherwise)
+fn patterns(n: usize) -> Vec<String> {
+    let mut v: Vec<String> = vec!["eq".into(), "alt".into(), "alt2".into(), "half".into(), "node".into()];
+    if n <= 16 {
+        for k in 0..n {
+            v.push(format!("one.{}", k));
+        }
+        for s0 in 0..n {
+            for l in 2..=(n - s0) {
+                v.push(format!("run.{}.{}", s0, l));
+            }
+        }
+    } else {
+        for k in [0, 1, n / 2 - 1, n / 2, n - 2, n - 1] {
+            v.push(format!("one.{}", k));
+        }
+        for s0 in [0usize, 1, 2, 3, 5, n / 4 - 1, n / 4, n / 2 - 1, n / 2, n / 2 + 1, n - 7, n - 4, n - 3] {
+            for l in [2usize, 3, 4, 5, 8, n / 2, n - s0] {
+                if l >= 2 && s0 + l <= n {
+                    v.push(format!("run.{}.{}", s0, l));
+                }
+            }
+        }
+    }
+    v.sort();
+    v.dedup();
+    v
 }
 
 /// naive recursive root of a power-of-two slice of leaves
@@ -213,7 +313,7 @@ fn naive_path<H: HX>(levels: &[Vec<H::Digest>], i: usize) -> Vec<H::Digest> {
 }
 
 thread_local! {
-    static TREES: RefCell<HashMap<(&'static str, u32, u64), Rc<dyn Any>>> = RefCell::new(HashMap::new());
+    static TREES: RefCell<HashMap<(&'static str, u32, Sd), Rc<dyn Any>>> = RefCell::new(HashMap::new());
 }
 
 struct Built<H: HX> {
@@ -221,23 +321,36 @@ struct Built<H: HX> {
     tree: MerkleTree<H>,
     naive_root: H::Digest,
     levels: Vec<Vec<H::Digest>>,
+    patterned: bool,
 }
 
-fn built<H: HX>(depth: u32, seed: u64) -> Rc<Built<H>> {
-    let hit = TREES.with(|t| t.borrow().get(&(H::NAME, depth, seed)).cloned());
+fn built<H: HX>(depth: u32, sd: &Sd) -> Option<Rc<Built<H>>> {
+    let hit = TREES.with(|t| t.borrow().get(&(H::NAME, depth, sd.clone())).cloned());
     if let Some(rc) = hit {
         if let Ok(b) = rc.downcast::<Built<H>>() {
-            return b;
+            return Some(b);
         }
     }
-    let leaves = leaves_of::<H>(1usize << depth, seed);
+    let leaves = leaves_of::<H>(1usize << depth, sd)?;
     let tree = MerkleTree::<H>::new(leaves.clone()).expect("tree");
     let levels = naive_levels::<H>(&leaves);
     // the recursive definition for small trees, the level table (cross-checked on small trees) otherwise
     let naive_root = if depth <= 6 { naive_root::<H>(&leaves) } else { levels.last().unwrap()[0] };
-    let b = Rc::new(Built { leaves, tree, naive_root, levels });
-    TREES.with(|t| t.borrow_mut().insert((H::NAME, depth, seed), b.clone() as Rc<dyn Any>));
-    b
+    let b = Rc::new(Built { leaves, tree, naive_root, levels, patterned: sd.patterned() });
+    TREES.with(|t| {
+        let mut t = t.borrow_mut();
+        if t.len() > 64 {
+            t.clear();
+        }
+        t.insert((H::NAME, depth, sd.clone()), b.clone() as Rc<dyn Any>)
+    });
+    Some(b)
+}
+
+/// with repeated leaf values a changed position or shape can be another valid opening: only changed
+/// digests are judged there
+fn judged(patterned: bool, mk: &str) -> bool {
+    !patterned || mk == "none" || mk == "leaf" || mk == "node"
 }
 
 fn res_str<H: HX>(r: &Result<Result<H::Digest, MerkleTreeError>, String>) -> String {
@@ -477,11 +590,14 @@ fn all_single_muts(idx: usize, depth: usize, exhaustive_idx: bool) -> Vec<String
 
 // ------------------------------------------------------------------------------------ exec
 fn exec_new<H: HX>(t: &[&str]) -> Outcome {
-    let (n, seed) = match (t.first().and_then(|s| s.parse::<usize>().ok()), t.get(1).and_then(|s| s.parse::<u64>().ok())) {
+    let (n, seed) = match (t.first().and_then(|s| s.parse::<usize>().ok()), t.get(1).and_then(|s| Sd::parse(s))) {
         (Some(n), Some(s)) if n <= 1 << 13 => (n, s),
         _ => return Outcome::ok("bad-op"),
     };
-    let leaves = leaves_of::<H>(n, seed);
+    let leaves = match leaves_of::<H>(n, &seed) {
+        Some(l) => l,
+        None => return Outcome::ok("bad-op"),
+    };
     match guarded(|| MerkleTree::<H>::new(leaves.clone())) {
         Err(info) => Outcome::ok("panic").fail(format!("{}.new.panic", H::NAME), info),
         Ok(Err(e)) => {
@@ -515,9 +631,9 @@ fn exec_new<H: HX>(t: &[&str]) -> Outcome {
     }
 }
 
-fn head(t: &[&str]) -> Option<(u32, u64)> {
+fn head(t: &[&str]) -> Option<(u32, Sd)> {
     let d = t.first()?.parse::<u32>().ok()?;
-    let s = t.get(1)?.parse::<u64>().ok()?;
+    let s = Sd::parse(t.get(1)?)?;
     if d == 0 || d > 13 {
         return None;
     }
@@ -534,7 +650,10 @@ fn exec_single<H: HX>(t: &[&str]) -> Outcome {
         None => return Outcome::ok("bad-op"),
     };
     let m = &t[3.min(t.len())..];
-    let b = built::<H>(depth, seed);
+    let b = match built::<H>(depth, &seed) {
+        Some(b) => b,
+        None => return Outcome::ok("bad-op"),
+    };
     let n = b.leaves.len();
     let hn = H::NAME;
     let mut o = Outcome::default();
@@ -614,7 +733,10 @@ fn exec_single<H: HX>(t: &[&str]) -> Outcome {
     match (&r, mk) {
         (Err(info), _) => o = o.fail(format!("{}.verify.{}.panic", hn, mk), format!("verify panicked: {}", info)),
         (Ok(Ok(())), "none") => {},
-        (Ok(Ok(())), _) => o = o.fail(format!("{}.verify.{}.accepted", hn, mk), "a modified single opening was accepted"),
+        (Ok(Ok(())), _) if judged(b.patterned, mk) => {
+            o = o.fail(format!("{}.verify.{}.accepted", hn, mk), "a modified single opening was accepted")
+        },
+        (Ok(Ok(())), _) => {},
         (Ok(Err(e)), "none") => o = o.fail(format!("{}.verify.rejected-valid", hn), format!("valid path rejected: {}", kind(e))),
         (Ok(Err(_)), _) => {},
     }
@@ -683,7 +805,10 @@ fn exec_batch<H: HX>(t: &[&str]) -> Outcome {
         None => return Outcome::ok("bad-op"),
     };
     let m = &t[3.min(t.len())..];
-    let b = built::<H>(depth, seed);
+    let b = match built::<H>(depth, &seed) {
+        Some(b) => b,
+        None => return Outcome::ok("bad-op"),
+    };
     let hn = H::NAME;
     let mut o = Outcome::default();
     let mut op = match prove_batch_checked::<H>(&b, &idxs, &mut o) {
@@ -705,9 +830,10 @@ fn exec_batch<H: HX>(t: &[&str]) -> Outcome {
     match (&r2, mk) {
         (Err(info), _) => o = o.fail(format!("{}.verify_batch.{}.panic", hn, mk), format!("verify_batch panicked: {}", info)),
         (Ok(Ok(())), "none") => {},
-        (Ok(Ok(())), _) => {
+        (Ok(Ok(())), _) if judged(b.patterned, mk) => {
             o = o.fail(format!("{}.verify_batch.{}.accepted", hn, mk), "a modified batch opening was accepted (no error)")
         },
+        (Ok(Ok(())), _) => {},
         (Ok(Err(e)), "none") => o = o.fail(format!("{}.verify_batch.rejected-valid", hn), format!("valid opening rejected: {}", kind(e))),
         (Ok(Err(_)), _) => {},
     }
@@ -729,7 +855,10 @@ fn exec_paths<H: HX>(t: &[&str]) -> Outcome {
         None => return Outcome::ok("bad-op"),
     };
     let m = &t[3.min(t.len())..];
-    let b = built::<H>(depth, seed);
+    let b = match built::<H>(depth, &seed) {
+        Some(b) => b,
+        None => return Outcome::ok("bad-op"),
+    };
     let hn = H::NAME;
     let mut o = Outcome::default();
     let mut op = match prove_batch_checked::<H>(&b, &idxs, &mut o) {
@@ -819,7 +948,7 @@ fn exec_paths<H: HX>(t: &[&str]) -> Outcome {
             } else {
                 match &r2 {
                     Err(info) => o = o.fail(format!("{}.verify_batch.{}.panic", hn, mk), format!("verify_batch panicked: {}", info)),
-                    Ok(Ok(())) => {
+                    Ok(Ok(())) if judged(b.patterned, mk) => {
                         o = o.fail(
                             format!("{}.from_paths.{}.accepted", hn, mk),
                             "a modified opening was decompressed and re-compressed into an accepted opening",
@@ -843,7 +972,10 @@ fn exec_ser<H: HX>(t: &[&str]) -> Outcome {
         None => return Outcome::ok("bad-op"),
     };
     let m = &t[3.min(t.len())..];
-    let b = built::<H>(depth, seed);
+    let b = match built::<H>(depth, &seed) {
+        Some(b) => b,
+        None => return Outcome::ok("bad-op"),
+    };
     let hn = H::NAME;
     let mut o = Outcome::default();
     let op = match prove_batch_checked::<H>(&b, &idxs, &mut o) {
@@ -905,6 +1037,67 @@ fn exec_ser<H: HX>(t: &[&str]) -> Outcome {
     o
 }
 
+/// the tree itself: root and every node reachable through `prove` against the naive recomputation
+fn exec_tree<H: HX>(t: &[&str]) -> Outcome {
+    let (depth, seed) = match head(t) {
+        Some(x) => x,
+        None => return Outcome::ok("bad-op"),
+    };
+    let b = match built::<H>(depth, &seed) {
+        Some(b) => b,
+        None => return Outcome::ok("bad-op"),
+    };
+    let hn = H::NAME;
+    let n = b.leaves.len();
+    let mut o = Outcome::default();
+    let root = *b.tree.root();
+    if root != b.naive_root || b.levels.last().unwrap()[0] != b.naive_root {
+        o = o.fail(format!("{}.new.root", hn), "root differs from the naive recursive hash of the leaves");
+    }
+    let step = if n <= 256 { 1 } else { n / 256 };
+    let mut h = CKS0;
+    let mut i = 0;
+    while i < n {
+        match guarded(|| b.tree.prove(i)) {
+            Ok(Ok(path)) => {
+                if path != naive_path::<H>(&b.levels, i) {
+                    o = o.fail(format!("{}.new.nodes", hn), format!("a node on the path of position {} differs from the naive recursive hash", i));
+                }
+                for d in &path {
+                    h = cks::<H>(h, d);
+                }
+                match guarded(|| MerkleTree::<H>::verify(root, i, &path)) {
+                    Ok(Ok(())) => {},
+                    _ => o = o.fail(format!("{}.verify.rejected-valid", hn), format!("the path of position {} does not verify against the tree's own root", i)),
+                }
+            },
+            _ => o = o.fail(format!("{}.prove.error", hn), format!("prove({}) failed", i)),
+        }
+        i += step;
+    }
+    #[cfg(feature = "concurrent")]
+    {
+        if n > 1024 {
+            let nodes = winter_crypto::concurrent::build_merkle_nodes::<H>(&b.leaves);
+            let mut ok = nodes.len() == n;
+            for l in 1..b.levels.len() {
+                let row = &b.levels[l];
+                let off = row.len();
+                for (k, d) in row.iter().enumerate() {
+                    if ok && nodes[off + k] != *d {
+                        ok = false;
+                    }
+                }
+            }
+            if !ok {
+                o = o.fail(format!("{}.new.concurrent-nodes", hn), "concurrent build_merkle_nodes differs from the naive levels");
+            }
+        }
+    }
+    o.out = format!("root={} h={}", H::num(&root), h);
+    o
+}
+
 fn exec_h<H: HX>(op: &str, t: &[&str]) -> Outcome {
     match op {
         "new" => exec_new::<H>(t),
@@ -912,13 +1105,14 @@ fn exec_h<H: HX>(op: &str, t: &[&str]) -> Outcome {
         "batch" => exec_batch::<H>(t),
         "paths" => exec_paths::<H>(t),
         "ser" => exec_ser::<H>(t),
+        "tree" => exec_tree::<H>(t),
         _ => Outcome::ok("bad-op"),
     }
 }
 
 // ------------------------------------------------------------------------------------ gen
 fn lens_of(depth: u32, idxs: &[usize]) -> Option<Vec<usize>> {
-    let b = built::<Toy>(depth, 1);
+    let b = built::<Toy>(depth, &Sd::plain(1)).unwrap();
     match guarded(|| b.tree.prove_batch(idxs)) {
         Ok(Ok(p)) => Some(p.nodes.iter().map(|r| r.len()).collect()),
         _ => None,
@@ -1055,6 +1249,75 @@ impl P {
                 emit(format!("paths {} {} {} - none", h, depth, seed));
             }
         }
+        // leaf patterns (repeated leaf values): the tree itself and its openings against the naive recomputation
+        for (hi, h) in HASHERS.iter().enumerate() {
+            let toy = *h == "toy";
+            let strong = toy || hi == 1 || hi == 4;
+            for depth in 1..=8usize {
+                let nl = 1usize << depth;
+                if depth > 6 && !strong {
+                    continue;
+                }
+                let seed = 40 + depth as u64;
+                emit(format!("tree {} {} {}", h, depth, seed));
+                for pat in patterns(nl) {
+                    let st = format!("{}:{}", seed, pat);
+                    if label(&pat, 0, nl).is_none() {
+                        continue;
+                    }
+                    emit(format!("tree {} {} {}", h, depth, st));
+                    if depth <= 4 {
+                        emit(format!("new {} {} {}", h, nl, st));
+                    }
+                    // openings
+                    if depth <= 3 && (toy || (thorough && strong)) {
+                        for mask in 1u32..(1u32 << nl) {
+                            let is = fmt_idxs(&subset_of(mask, nl));
+                            emit(format!("batch {} {} {} {} none", h, depth, st, is));
+                            emit(format!("paths {} {} {} {} none", h, depth, st, is));
+                        }
+                    } else if depth <= 6 && (strong || depth <= 3) {
+                        let cnt = if toy { 8 } else { 3 };
+                        for _ in 0..cnt {
+                            let k = rng.range(1, nl.min(12) as u64) as usize;
+                            let mut set = BTreeSet::new();
+                            while set.len() < k {
+                                set.insert(rng.below(nl as u64) as usize);
+                            }
+                            let mut idxs: Vec<usize> = set.into_iter().collect();
+                            if rng.chance(1, 3) {
+                                shuffle(rng, &mut idxs);
+                            }
+                            let is = fmt_idxs(&idxs);
+                            emit(format!("batch {} {} {} {} none", h, depth, st, is));
+                            emit(format!("paths {} {} {} {} none", h, depth, st, is));
+                            emit(format!("batch {} {} {} {} leaf {}", h, depth, st, is, rng.below(k as u64)));
+                            if toy {
+                                emit(format!("batch {} {} {} {} node 0 0", h, depth, st, is));
+                            }
+                        }
+                    }
+                    if depth <= 4 && strong {
+                        for idx in 0..nl {
+                            emit(format!("single {} {} {} {} none", h, depth, st, idx));
+                        }
+                        emit(format!("single {} {} {} {} node 0", h, depth, st, rng.below(nl as u64)));
+                    }
+                }
+            }
+            // large trees (the concurrent builder when the harness is built with that feature)
+            if toy || hi == 1 {
+                for depth in [11usize, 12] {
+                    let nl = 1usize << depth;
+                    emit(format!("tree {} {} 7", h, depth));
+                    for pat in ["eq", "alt", "half", "node", "run.1.3", "run.1027.5", "run.2047.2049"] {
+                        if label(pat, 0, nl).is_some() {
+                            emit(format!("tree {} {} 7:{}", h, depth, pat));
+                        }
+                    }
+                }
+            }
+        }
         // sampled deeper trees
         let per_depth = if thorough { 400 * scale } else { 40 * scale };
         for depth in 5..=12usize {
@@ -1129,7 +1392,7 @@ impl P {
         // malformed op stream
         for l in ["", "batch", "batch toy", "batch toy 0 1 0 none", "batch toy 3 1 0,x none", "batch toy 3 1 0 leaf 9", "single toy 3 1 0 node 9",
             "batch toy 3 1 0,1 node 0 0", "paths toy 3 1 0 frob", "new toy x 1", "frob toy 1 1", "batch nohash 3 1 0 none", "single toy 14 1 0 none",
-            "batch toy 3 1 0 idx 0 0", "batch toy 3 1 0 depth 3", "ser toy 3 1 0 cut 999"]
+            "batch toy 3 1 0 idx 0 0", "tree toy 3 1:frob", "tree toy 3 1:run.7.2", "tree toy 3 x", "batch toy 3 1:one.9 0 none", "batch toy 3 1 0 depth 3", "ser toy 3 1 0 cut 999"]
         {
             emit(l.to_string());
         }
